@@ -124,6 +124,9 @@ type VC struct {
 	lineTags [][]string // property tags of the contract clause a line was assumed from (nil: structural line)
 	curTags  []string
 	splitTerms []splitTerm
+	panicking string // while a deferred closure is inlined: "true"/"false" - is a panic in flight
+	recoverEdges []recoverEdge
+	lastCallReach string
 	lightMode bool
 	lineBlock []int
 	anc      map[*ssa.BasicBlock]map[int]bool
@@ -163,6 +166,13 @@ func (vc *VC) ancestors(b *ssa.BasicBlock) map[int]bool {
 	}
 	a := map[int]bool{b.Index: true}
 	vc.anc[b] = a
+	if b == vc.fn.Recover || (vc.fn.Recover != nil && len(b.Preds) == 0 && b != vc.fn.Blocks[0]) {
+		// the recover block is entered from the panic paths of the whole function
+		for _, x := range vc.fn.Blocks {
+			a[x.Index] = true
+		}
+		return a
+	}
 	for _, p := range b.Preds {
 		if b.Dominates(p) {
 			continue // back edge
@@ -993,4 +1003,9 @@ func tagsMeet(a, b []string) bool {
 		}
 	}
 	return false
+}
+
+type recoverEdge struct {
+	reach string
+	h     *Heap
 }
